@@ -56,16 +56,20 @@ type dist struct {
 	Powers  []int64
 	Compass bool // deployment scenario: claim variants by compass id + ActivateCompass (no Power/Override/CatchUp)
 	Legacy  bool // start with the chain ACTIVE but no latest compass id on record (see setup)
+	// claim-variant scenario: competing deposits at one nonce that differ only in the spelling of the free-form
+	// receiver, and deposits at the next nonce with a remote block height below / equal to / above the recorded one
+	Variants bool
 }
 
 var dists = []dist{
-	{"34-33-33", []int64{34, 33, 33}, false, false},
-	{"50-30-20", []int64{50, 30, 20}, false, false},
-	{"1-1-1", []int64{1, 1, 1}, false, false},
-	{"67-33", []int64{67, 33}, false, false},
-	{"25-25-25-25", []int64{25, 25, 25, 25}, false, false},
-	{"34-33-33/compass", []int64{34, 33, 33}, true, false},
-	{"34-33-33/compass-legacy", []int64{34, 33, 33}, true, true},
+	{"34-33-33", []int64{34, 33, 33}, false, false, false},
+	{"50-30-20", []int64{50, 30, 20}, false, false, false},
+	{"1-1-1", []int64{1, 1, 1}, false, false, false},
+	{"67-33", []int64{67, 33}, false, false, false},
+	{"25-25-25-25", []int64{25, 25, 25, 25}, false, false, false},
+	{"34-33-33/compass", []int64{34, 33, 33}, true, false, false},
+	{"34-33-33/compass-legacy", []int64{34, 33, 33}, true, true, false},
+	{"67-33/claim-variants", []int64{67, 33}, false, false, true},
 }
 
 // plan: which distributions run, how many worker processes each gets, depth.
@@ -88,9 +92,9 @@ func plan() []planItem {
 		return []planItem{{i, n, d, os.Getenv("C02_UNREG") != ""}}
 	}
 	if report.Tier() == "thorough" {
-		return scale([]planItem{{0, 5, 7, false}, {5, 1, 6, false}, {6, 1, 6, false}, {1, 2, 6, true}, {2, 2, 6, true}, {3, 1, 7, true}, {4, 4, 6, false}})
+		return scale([]planItem{{0, 5, 7, false}, {5, 1, 6, false}, {6, 1, 6, false}, {7, 1, 8, false}, {1, 2, 6, true}, {2, 1, 6, true}, {3, 1, 7, true}, {4, 4, 6, false}})
 	}
-	return scale([]planItem{{0, 6, 6, false}, {5, 2, 5, false}, {6, 1, 6, false}, {1, 6, 6, false}, {2, 1, 5, false}})
+	return scale([]planItem{{0, 6, 6, false}, {5, 1, 5, false}, {6, 1, 6, false}, {7, 1, 6, false}, {1, 6, 6, false}, {2, 1, 5, false}})
 }
 
 // scale fits the plan (laid out for 16 worker processes) to report.Workers():
@@ -156,6 +160,9 @@ func slots() []slot {
 
 type claimDef struct {
 	Compass string // compass (bridge deployment) id the claim carries
+	Height  uint64 // remote block height the claim reports
+	Pays    bool   // deposit whose receiver string decodes to the receiver account (otherwise: community pool)
+	Body    string // canonical rendering of every field of the claim except voter and metadata
 	Name    string
 	Kind    string // deposit | deposit-unregistered | batch
 	Nonce   uint64
@@ -183,12 +190,22 @@ type ghost struct {
 	// bridge deployment: id on record (set by the last activation; "" = none), the one before, activations so far
 	Deploy, Prev string
 	NAct         int
+	// effects: Eff[c] = 1 once claim c's effect has been accounted for (at observation, or before it: see post);
+	// Pooled = deposits that must have gone to the community pool (receiver string does not decode)
+	Eff    []uint8
+	Pooled int64
+	// remote block height recorded by the last observed claim (the keeper refuses to lower it)
+	LastHeight  uint64
+	EpochHeight uint64 // the same, but only over claims observed since the last reset
+	refused     string // transient: claim refused by the height rule in the last step
+	refusedKind string
 }
 
 func (g *ghost) Clone() explore.Ghost {
 	return &ghost{Voters: append([]uint8{}, g.Voters...), Obs: append([]bool{}, g.Obs...), Cursor: g.Cursor,
 		EpochNonces: append([]uint64{}, g.EpochNonces...), Epoch: g.Epoch, Minted: g.Minted, Burned: g.Burned, BatchDone: g.BatchDone,
-		PowerPending: g.PowerPending, AfterOverride: g.AfterOverride, Deploy: g.Deploy, Prev: g.Prev, NAct: g.NAct}
+		PowerPending: g.PowerPending, AfterOverride: g.AfterOverride, Deploy: g.Deploy, Prev: g.Prev, NAct: g.NAct,
+		Eff: append([]uint8{}, g.Eff...), Pooled: g.Pooled, LastHeight: g.LastHeight, EpochHeight: g.EpochHeight}
 }
 
 func (g *ghost) Key() string { b, _ := json.Marshal(g); return string(b) }
@@ -201,7 +218,7 @@ type env struct {
 	d          dist
 	sl         slot
 	claims     []*claimDef
-	byHash     map[string]int
+	byBody     map[string]int
 	valIdx     map[string]int
 	denom      string
 	rcv        *world.Actor
@@ -286,7 +303,7 @@ func run(r *report.Run, shard, nshards int, replayFile string) {
 		e.keepDepth = kd
 	}
 
-	r.Rule = "BFS over Vote(v,claim) (really signed MsgSendToPalomaClaim / MsgBatchSendToRemoteClaim txs through ante + router) for competing claims cA,cB (deposits of 7 / 9, same nonce 1), cX (batch-executed, nonce 1), cC (deposit, nonce 2) [thorough, except 34-33-33 and 25-25-25-25: + cU, deposit of an unregistered token, nonce 1]; Tally (skyway.EndBlocker); CatchUp (skyway.EndBlocker at height 150 => UpdateValidatorNoncesToLatest); Power(v,p) p in {0, p0, 2*p0} (staking last-validator-power + last-total-power); Override(k) k in {last-1,last,last+1} (MsgNonceOverrideProposal by the gov authority); one search per stake distribution (quick: 34-33-33 and 50-30-20 to depth 6, 1-1-1 to depth 5; thorough: 34-33-33 and 67-33 depth 7, 50-30-20 / 1-1-1 / 25-25-25-25 depth 6); plus two bridge-deployment searches on 34-33-33 (quick depth 5 / 6, thorough 6): deposits D1 (nonce 1), D2 (nonce 2), each votable with the compass id on record, with none, and with another id (the previous deployment's, or a never deployed one), Tally, and ActivateCompass = EvmKeeper.ActivateChainReferenceID with a higher contract id and a new unique id (publishes eventbus.EVMActivatedChain: latest compass id recorded, cursor and validator nonces reset; at most 1 activation per history quick, 2 thorough), started from the standard state (compass id on record) and from a state with the chain ACTIVE and no compass id on record; a state is distinct by (skyway store, last powers, ghost voter sets / observed set / epoch cursor / deployment id); oracle after every step: a newly Observed claim carries the compass id of the current deployment whenever one is on record; each newly Observed claim has distinct-voter power*100 > 66*total, is the only one at its nonce in this reset epoch and sits at cursor+1; cursor moves only by observation / reset; receiver balance, supply, escrow and batch deletion equal the observed claims' effects applied exactly once; Observed never reverts; a rejected vote leaves the skyway store byte-identical"
+	r.Rule = "BFS over Vote(v,claim) (really signed MsgSendToPalomaClaim / MsgBatchSendToRemoteClaim txs through ante + router) for competing claims cA,cB (deposits of 7 / 9, same nonce 1), cX (batch-executed, nonce 1), cC (deposit, nonce 2) [thorough, except 34-33-33 and 25-25-25-25: + cU, deposit of an unregistered token, nonce 1]; Tally (skyway.EndBlocker); CatchUp (skyway.EndBlocker at height 150 => UpdateValidatorNoncesToLatest); Power(v,p) p in {0, p0, 2*p0} (staking last-validator-power + last-total-power); Override(k) k in {last-1,last,last+1} (MsgNonceOverrideProposal by the gov authority); one search per stake distribution (quick: 34-33-33 and 50-30-20 to depth 6, 1-1-1 to depth 5; thorough: 34-33-33 and 67-33 depth 7, 50-30-20 / 1-1-1 / 25-25-25-25 depth 6); plus two bridge-deployment searches on 34-33-33 (quick depth 5 / 6, thorough 6): deposits D1 (nonce 1), D2 (nonce 2), each votable with the compass id on record, with none, and with another id (the previous deployment's, or a never deployed one), Tally, and ActivateCompass = EvmKeeper.ActivateChainReferenceID with a higher contract id and a new unique id (publishes eventbus.EVMActivatedChain: latest compass id recorded, cursor and validator nonces reset; at most 1 activation per history quick, 2 thorough), started from the standard state (compass id on record) and from a state with the chain ACTIVE and no compass id on record; plus a claim-variant search on 67-33 (quick depth 6, thorough 8): at nonce 1 the genuine deposit G (remote height 100) and three claims differing from it only in the spelling of the free-form receiver (one letter upper-cased, all upper-case, trailing blank), at nonce 2 deposits reporting remote height 90 / 100 / 110, Tally (any number of further end-blocks), Override(0); a state is distinct by (skyway store, last powers, ghost voter sets / observed set / epoch cursor / deployment id / accounted effects); stored claims are identified by their full body, never by the claim hash; oracle after every step: every vote entry of a newly Observed claim belongs to a validator that submitted exactly that body; a newly Observed claim carries the compass id of the current deployment whenever one is on record; each newly Observed claim has distinct-voter power*100 > 66*total, is the only one at its nonce in this reset epoch and sits at cursor+1; cursor moves only by observation / reset; receiver balance, supply, escrow and batch deletion equal the observed claims' effects applied exactly once; Observed never reverts; a rejected vote leaves the skyway store byte-identical"
 	r.Assumptions = []string{
 		"a validator 'has voted for a claim' once a vote transaction of it for that claim hash succeeded, in any reset epoch (weakest reading: earlier votes keep counting after a reset, but only once per validator)",
 		"every successful MsgNonceOverrideProposal starts a new reset epoch, also when it writes the value the cursor already has (weakest reading: fewer constraints)",
@@ -294,6 +311,8 @@ func run(r *report.Run, shard, nshards int, replayFile string) {
 		"the explored code reads the block height only modulo 50; every step runs at height 101, CatchUp at 150",
 		"all claims carry the same remote block height; duplicate vote entries are not flagged by themselves, only an observation whose distinct voters hold <= 66%",
 		"tx atomicity re-implemented as in baseapp.runTx (ante cache, msg cache)",
+		"remote-height rule: the keeper refuses to lower the recorded remote block height; on this tree a claim that holds a quorum at cursor+1 but reports a lower height has the cursor written and is then dropped (TryAttestation returns after setLastObservedSkywayNonce; no Observed flag, no effect, the end-blocker has no cache context). Honest validators cannot report decreasing heights for increasing nonces of one deployment and 'exactly once whenever it can be applied at all' exempts claims the chain refuses, so this is accepted like 'handler failed, oracle progresses': the nonce counts as consumed, zero effect is not an alarm; it is counted (nonces_consumed_by_claims_refused_for_lower_remote_height, refused:*) and sampled. Still checked there: no effect for a refused or below-quorum claim, at most one effect per claim over any number of later end-blocks, consecutive order among the claims that take effect, cursor moves only by observation, refusal of a quorum claim, or reset",
+		"effects are accounted per claim body, once: normally when the claim becomes Observed; if receiver balance / supply show the effect of a deposit that holds a quorum of identical votes at cursor+1 before its Observed flag is set, it is accounted then (weakest reading) and any further application is an alarm",
 		"a compass activation is a reset: new epoch, cursor 0; votes cast before it keep counting for the identical claim (weakest reading), but a claim of another or no deployment must not become Observed while a deployment id is on record",
 		"'chain ACTIVE, no latest compass id on record' is not reachable from genesis on this tree (genesis chains are inactive until ActivateChainReferenceID, which publishes the recording event); it stands for a chain activated under a binary that did not record compass ids and is produced without store writes by removing the skyway eventbus subscription during the initial activation and re-subscribing (NewKeeper over the same store). UnobservedBlocksByAddr (a query for relayers) is not explored",
 		"partial-order reduction: Power(v,p) writes only staking last powers, which only the tally reads (Attest, the claim handlers and overrideNonce never read them), so power changes are explored only directly before a Tally/CatchUp, in ascending validator order, one per validator; Override directly after Override is skipped (same state as the second alone). Depth counts every step including Power",
@@ -369,7 +388,7 @@ func setup(r *report.Run, sl slot) *env {
 	if names := w.App.EvmKeeper.GetActiveChainNames(ctx); len(names) != 1 || names[0] != ref {
 		panic(fmt.Sprintf("setup: active chains %v", names))
 	}
-	e := &env{w: w, r: r, d: d, sl: sl, byHash: map[string]int{}, valIdx: map[string]int{}, rcv: w.User("R"), shardDepth: 2, txCache: map[string]sdk.Tx{}, anchors: map[string]*explore.Node{}, keepDepth: sl.Depth, abi: world.CompassABI()}
+	e := &env{w: w, r: r, d: d, sl: sl, byBody: map[string]int{}, valIdx: map[string]int{}, rcv: w.User("R"), shardDepth: 2, txCache: map[string]sdk.Tx{}, anchors: map[string]*explore.Node{}, keepDepth: sl.Depth, abi: world.CompassABI()}
 	denom, err := w.BridgeToken(ctx, w.User("adm"), "t1", ref, erc20Reg, 1000, w.User("U1"))
 	must(err)
 	e.denom = denom
@@ -403,17 +422,38 @@ func setup(r *report.Run, sl slot) *env {
 		panic("setup: cursor not 0")
 	}
 
-	depC := func(name string, nonce uint64, erc20 string, amt int64, kind, compass string) {
-		e.claims = append(e.claims, &claimDef{Name: name, Kind: kind, Nonce: nonce, Amount: amt, Compass: compass, Build: func(v *world.Val) sdk.Msg {
-			m := world.DepositClaim(v, ref, nonce, 1, erc20, amt, ethSender, e.rcv.Addr.String())
+	depV := func(name string, nonce, height uint64, erc20 string, amt int64, kind, compass, receiver string) {
+		e.claims = append(e.claims, &claimDef{Name: name, Kind: kind, Nonce: nonce, Amount: amt, Compass: compass, Height: height, Build: func(v *world.Val) sdk.Msg {
+			m := world.DepositClaim(v, ref, nonce, height, erc20, amt, ethSender, receiver)
 			m.CompassId = compass
 			return m
 		}})
 	}
+	depC := func(name string, nonce uint64, erc20 string, amt int64, kind, compass string) {
+		depV(name, nonce, 1, erc20, amt, kind, compass, e.rcv.Addr.String())
+	}
 	dep := func(name string, nonce uint64, erc20 string, amt int64, kind string) {
 		depC(name, nonce, erc20, amt, kind, world.CompassID)
 	}
-	if d.Compass {
+	if d.Variants {
+		// nonce 1: the genuine deposit G and three claims that differ from it only in the spelling of the free-form
+		// receiver; nonce 2: deposits reporting a remote height below / equal to / above the one G records
+		R := e.rcv.Addr.String()
+		mixed := []byte(R)
+		for i := strings.Index(R, "1") + 1; i < len(mixed); i++ {
+			if mixed[i] >= 'a' && mixed[i] <= 'z' {
+				mixed[i] -= 'a' - 'A'
+				break
+			}
+		}
+		depV("G", 1, 100, erc20Reg, 7, "deposit", world.CompassID, R)
+		depV("Gmixed", 1, 100, erc20Reg, 7, "deposit", world.CompassID, string(mixed))
+		depV("Gupper", 1, 100, erc20Reg, 7, "deposit", world.CompassID, strings.ToUpper(R))
+		depV("Gblank", 1, 100, erc20Reg, 7, "deposit", world.CompassID, R+" ")
+		depV("Lower", 2, 90, erc20Reg, 5, "deposit", world.CompassID, R)
+		depV("Equal", 2, 100, erc20Reg, 6, "deposit", world.CompassID, R)
+		depV("Higher", 2, 110, erc20Reg, 8, "deposit", world.CompassID, R)
+	} else if d.Compass {
 		// deposits D1 (nonce 1) and D2 (nonce 2), each as it would be reported for every deployment id of the
 		// scenario, without a compass id, and for a foreign id
 		for _, c := range compassIDs {
@@ -423,7 +463,7 @@ func setup(r *report.Run, sl slot) *env {
 	} else {
 		dep("cA", 1, erc20Reg, 7, "deposit")
 		dep("cB", 1, erc20Reg, 9, "deposit")
-		e.claims = append(e.claims, &claimDef{Name: "cX", Kind: "batch", Nonce: 1, Compass: world.CompassID, Build: func(v *world.Val) sdk.Msg {
+		e.claims = append(e.claims, &claimDef{Name: "cX", Kind: "batch", Nonce: 1, Compass: world.CompassID, Height: 1, Build: func(v *world.Val) sdk.Msg {
 			return world.BatchExecutedClaim(v, ref, 1, 1, e.batchNonce, erc20Reg)
 		}})
 		dep("cC", 2, erc20Reg, 5, "deposit")
@@ -432,13 +472,19 @@ func setup(r *report.Run, sl slot) *env {
 		}
 	}
 	for i, c := range e.claims {
-		h, err := c.Build(w.Vals[0]).(skywaytypes.EthereumClaim).ClaimHash()
+		m := c.Build(w.Vals[0]).(skywaytypes.EthereumClaim)
+		h, err := m.ClaimHash()
 		must(err)
-		c.Hash = hex.EncodeToString(h)
-		if _, dup := e.byHash[c.Hash]; dup {
-			panic("setup: claim hashes collide")
+		c.Hash = hex.EncodeToString(h) // claims are told apart by body, not by hash: the hash is under test
+		c.Body = bodyKey(m)
+		if _, dup := e.byBody[c.Body]; dup {
+			panic("setup: two claims of the alphabet have the same body")
 		}
-		e.byHash[c.Hash] = i
+		e.byBody[c.Body] = i
+		if dc, ok := m.(*skywaytypes.MsgSendToPalomaClaim); ok && c.Kind == "deposit" {
+			a, err := skywaytypes.IBCAddressFromBech32(dc.PalomaReceiver)
+			c.Pays = err == nil && sdk.AccAddress(a).Equals(e.rcv.Addr)
+		}
 	}
 	e.bal0 = w.Balance(ctx, e.rcv.Addr, denom)
 	e.sup0 = w.Supply(ctx, denom)
@@ -450,7 +496,7 @@ func setup(r *report.Run, sl slot) *env {
 }
 
 func (e *env) ghost0() *ghost {
-	g := &ghost{Voters: make([]uint8, len(e.claims)), Obs: make([]bool, len(e.claims)), EpochNonces: []uint64{}, Deploy: world.CompassID}
+	g := &ghost{Voters: make([]uint8, len(e.claims)), Obs: make([]bool, len(e.claims)), Eff: make([]uint8, len(e.claims)), EpochNonces: []uint64{}, Deploy: world.CompassID}
 	if e.d.Legacy {
 		g.Deploy = ""
 	}
@@ -543,8 +589,9 @@ func (e *env) names(mask uint8) string {
 // post is the step oracle; it runs after every operation.
 func (e *env) post(ctx sdk.Context, g *ghost, count bool) *explore.Fail {
 	k := e.w.App.SkywayKeeper
+	g.refused, g.refusedKind = "", ""
 	seen := make([]bool, len(e.claims))
-	votes := make([][]string, len(e.claims))
+	votes := make([][]int, len(e.claims))
 	var newly []int
 	var fail *explore.Fail
 	err := k.IterateAttestations(ctx, ref, false, func(_ []byte, att skywaytypes.Attestation) bool {
@@ -553,21 +600,24 @@ func (e *env) post(ctx sdk.Context, g *ghost, count bool) *explore.Fail {
 			fail = explore.Failf("harness:unpack", "cannot unpack attestation: %v", err)
 			return true
 		}
-		h, _ := claim.ClaimHash()
-		ci, ok := e.byHash[hex.EncodeToString(h)]
+		// the stored claim is identified by its body (every field), never by the hash under test
+		ci, ok := e.byBody[bodyKey(claim)]
 		if !ok {
 			fail = explore.Failf("harness:unknown-attestation", "attestation for a claim outside the alphabet at nonce %d", claim.GetSkywayNonce())
 			return true
 		}
 		c := e.claims[ci]
+		if seen[ci] {
+			fail = explore.Failf("identity:two-attestations-for-one-claim-body", "two attestations store the body of %s", c.Name)
+			return true
+		}
 		seen[ci] = true
 		for _, v := range att.Votes {
 			vi, ok := e.valIdx[v]
-			votes[ci] = append(votes[ci], fmt.Sprintf("v%d", vi))
-			if !ok || g.Voters[ci]&(1<<vi) == 0 {
-				fail = explore.Failf("votes:entry-of-a-validator-that-never-voted-for-this-claim", "attestation %s lists %s which never voted for it (distinct voters %s)", c.Name, v, e.names(g.Voters[ci]))
-				return true
+			if !ok {
+				vi = -1
 			}
+			votes[ci] = append(votes[ci], vi)
 		}
 		switch {
 		case att.Observed && !g.Obs[ci]:
@@ -596,28 +646,101 @@ func (e *env) post(ctx sdk.Context, g *ghost, count bool) *explore.Fail {
 		}
 		return a.Name < b.Name
 	})
-	ps, total := e.powers(ctx)
+	isNew := map[int]bool{}
 	for _, ci := range newly {
-		c := e.claims[ci]
+		isNew[ci] = true
+	}
+	ps, total := e.powers(ctx)
+	power := func(ci int) int64 { // current power of the distinct validators that voted for exactly this body
 		var pw int64
 		for i := range e.w.Vals {
 			if g.Voters[ci]&(1<<i) != 0 {
 				pw += ps[i]
 			}
 		}
+		return pw
+	}
+	eligible := func(ci int) bool { // unobserved, stored, quorum of identical votes, of the current deployment
+		c := e.claims[ci]
+		return seen[ci] && !g.Obs[ci] && !isNew[ci] && power(ci)*100 > 66*total && (g.Deploy == "" || c.Compass == g.Deploy)
+	}
+	// The keeper refuses to lower the recorded remote block height. On this tree a quorum claim at cursor+1 that
+	// reports a lower height has the cursor written and is then dropped (no Observed flag, no effect, never
+	// retried): the nonce is consumed without effect. Accepted reading, see r.Assumptions.
+	consumeRefused := func(limit uint64) {
+		for g.Cursor < limit {
+			found := -1
+			for ci, c := range e.claims {
+				if c.Nonce == g.Cursor+1 && c.Height < g.LastHeight && eligible(ci) {
+					found = ci
+					break
+				}
+			}
+			if found < 0 {
+				return
+			}
+			g.Cursor++
+			g.EpochNonces = append(g.EpochNonces, g.Cursor)
+			g.refused, g.refusedKind = e.claims[found].Name, "lower-than-an-earlier-claim-of-this-epoch"
+			if e.claims[found].Height >= g.EpochHeight {
+				// not decreasing within this epoch: refused only because of a height recorded before the last reset
+				g.refusedKind = "lower-only-than-a-height-recorded-before-the-last-reset"
+			}
+			if count {
+				e.bump("nonces_consumed_by_claims_refused_for_lower_remote_height")
+				e.bump("refused:" + g.refusedKind)
+			}
+		}
+	}
+	apply := func(ci int) {
+		c := e.claims[ci]
+		if g.Eff[ci] != 0 {
+			return // its effect has been accounted for before it became Observed; a second application shows below
+		}
+		g.Eff[ci] = 1
+		switch c.Kind {
+		case "deposit":
+			if c.Pays {
+				g.Minted += c.Amount
+			} else {
+				g.Pooled += c.Amount
+			}
+		case "batch":
+			if !g.BatchDone {
+				g.BatchDone = true
+				g.Burned = e.batchTotal
+			}
+		}
+	}
+	storeCursor := e.cursor(ctx)
+	for _, ci := range newly {
+		c := e.claims[ci]
+		consumeRefused(c.Nonce - 1)
+		pw := power(ci)
+		var entries []string
+		for _, vi := range votes[ci] {
+			entries = append(entries, fmt.Sprintf("v%d", vi))
+		}
+		for _, vi := range votes[ci] {
+			if vi < 0 || g.Voters[ci]&(1<<vi) == 0 {
+				return explore.Failf("identity:observed-claim-counts-votes-cast-for-another-claim-body",
+					"claim %s (nonce %d) became Observed with stored vote entries %v, but only %s submitted exactly this body (v%d voted for a claim that differs from it)",
+					c.Name, c.Nonce, entries, e.names(g.Voters[ci]), vi)
+			}
+		}
 		if g.Deploy != "" && c.Compass != g.Deploy {
 			return explore.Failf("deployment:observed-claim-not-of-the-current-bridge-deployment",
 				"claim %s (nonce %d, compass id %q) became Observed under the cursor of deployment %q (distinct voters %s, stored vote entries %v)",
-				c.Name, c.Nonce, c.Compass, g.Deploy, e.names(g.Voters[ci]), votes[ci])
+				c.Name, c.Nonce, c.Compass, g.Deploy, e.names(g.Voters[ci]), entries)
 		}
 		if !(pw*100 > 66*total) {
 			return explore.Failf("quorum:observed-with-distinct-voter-power<=66%",
 				"claim %s (nonce %d) became Observed with distinct voters %s holding %d of %d power (%d%%, needs >66%%); stored vote entries %v; powers %v",
-				c.Name, c.Nonce, e.names(g.Voters[ci]), pw, total, pct(pw, total), votes[ci], ps)
+				c.Name, c.Nonce, e.names(g.Voters[ci]), pw, total, pct(pw, total), entries, ps)
 		}
 		for _, n := range g.EpochNonces {
 			if n == c.Nonce {
-				return explore.Failf("epoch:second-claim-observed-at-one-nonce", "claim %s observed at nonce %d, but a claim at that nonce was already observed in this reset epoch (observed so far %v)", c.Name, c.Nonce, g.EpochNonces)
+				return explore.Failf("epoch:second-claim-observed-at-one-nonce", "claim %s observed at nonce %d, but that nonce was already taken in this reset epoch (so far %v)", c.Name, c.Nonce, g.EpochNonces)
 			}
 		}
 		if c.Nonce != g.Cursor+1 {
@@ -626,15 +749,8 @@ func (e *env) post(ctx sdk.Context, g *ghost, count bool) *explore.Fail {
 		g.Cursor = c.Nonce
 		g.EpochNonces = append(g.EpochNonces, c.Nonce)
 		g.Obs[ci] = true
-		switch c.Kind {
-		case "deposit":
-			g.Minted += c.Amount
-		case "batch":
-			if !g.BatchDone {
-				g.BatchDone = true
-				g.Burned = e.batchTotal
-			}
-		}
+		g.LastHeight, g.EpochHeight = c.Height, c.Height
+		apply(ci)
 		if count {
 			e.bump("observations:" + c.Kind)
 			if pw != total {
@@ -642,17 +758,41 @@ func (e *env) post(ctx sdk.Context, g *ghost, count bool) *explore.Fail {
 			}
 		}
 	}
-	// effects: exactly once per observed claim
+	consumeRefused(storeCursor)
+	// effects: at most once per claim, exactly once per observed claim
 	bal := new(big.Int).Sub(e.w.Balance(ctx, e.rcv.Addr, e.denom), e.bal0).Int64()
+	sup := new(big.Int).Sub(e.w.Supply(ctx, e.denom), e.sup0).Int64()
+	if bal != g.Minted || sup != g.Minted+g.Pooled-g.Burned {
+		// Weakest reading of "takes effect only after >66% voted ... applied at most once": the effect of a deposit
+		// claim that holds a quorum of identical votes and sits at cursor+1 may show before the Observed flag does;
+		// it is accounted for once, here.
+		for ci, c := range e.claims {
+			if c.Kind != "deposit" || c.Nonce != g.Cursor+1 || g.Eff[ci] != 0 || !eligible(ci) {
+				continue
+			}
+			m, p := g.Minted, g.Pooled
+			if c.Pays {
+				m += c.Amount
+			} else {
+				p += c.Amount
+			}
+			if bal == m && sup == m+p-g.Burned {
+				apply(ci)
+				if count {
+					e.bump("effects_seen_before_the_observed_flag")
+				}
+				break
+			}
+		}
+	}
 	if bal > g.Minted {
-		return explore.Failf("effect:deposit-applied-more-than-once-or-unobserved", "receiver got %d, observed deposit claims total %d", bal, g.Minted)
+		return explore.Failf("effect:deposit-applied-more-than-once-or-without-quorum", "receiver got %d; claims that took effect (each counted once) pay it %d", bal, g.Minted)
 	}
 	if bal < g.Minted {
-		return explore.Failf("effect:deposit-not-applied", "receiver got %d, observed deposit claims (registered token, valid receiver) total %d", bal, g.Minted)
+		return explore.Failf("effect:deposit-not-applied", "receiver got %d, observed deposit claims (registered token, receiver string decodes) total %d", bal, g.Minted)
 	}
-	sup := new(big.Int).Sub(e.w.Supply(ctx, e.denom), e.sup0).Int64()
-	if sup != g.Minted-g.Burned {
-		return explore.Failf("effect:supply", "supply changed by %d, observed deposits %d - burn of executed batch %d", sup, g.Minted, g.Burned)
+	if sup != g.Minted+g.Pooled-g.Burned {
+		return explore.Failf("effect:supply", "supply changed by %d; claims that took effect (each counted once): %d to the receiver + %d to the community pool - burn of executed batch %d", sup, g.Minted, g.Pooled, g.Burned)
 	}
 	esc := new(big.Int).Sub(e.esc0, e.w.Balance(ctx, e.w.SkywayModuleAddr(), e.denom)).Int64()
 	if esc != g.Burned {
@@ -668,8 +808,8 @@ func (e *env) post(ctx sdk.Context, g *ghost, count bool) *explore.Fail {
 	if got := k.GetLatestCompassID(ctx, ref); got != g.Deploy {
 		return explore.Failf("deployment:latest-compass-id-changed-without-activation", "latest compass id on record is %q, last activation gave %q", got, g.Deploy)
 	}
-	if got := e.cursor(ctx); got != g.Cursor {
-		return explore.Failf("order:cursor-moved-without-observation", "last observed nonce is %d; last reset / observations of this epoch give %d", got, g.Cursor)
+	if storeCursor != g.Cursor {
+		return explore.Failf("order:cursor-moved-without-observation", "last observed nonce is %d; last reset, observations and refused quorum claims of this epoch give %d", storeCursor, g.Cursor)
 	}
 	return nil
 }
@@ -705,6 +845,17 @@ func (e *env) offered(g *ghost, c *claimDef) bool {
 		other = "verif-compass-foreign"
 	}
 	return c.Compass == g.Deploy || c.Compass == "" || c.Compass == other
+}
+
+// bodyKey renders every field of a claim except the voter (orchestrator, metadata).
+func bodyKey(c skywaytypes.EthereumClaim) string {
+	switch m := c.(type) {
+	case *skywaytypes.MsgSendToPalomaClaim:
+		return fmt.Sprintf("deposit|%d|%d|%d|%q|%s|%q|%q|%q|%q", m.EventNonce, m.SkywayNonce, m.EthBlockHeight, m.TokenContract, m.Amount, m.EthereumSender, m.PalomaReceiver, m.ChainReferenceId, m.CompassId)
+	case *skywaytypes.MsgBatchSendToRemoteClaim:
+		return fmt.Sprintf("batch|%d|%d|%d|%d|%q|%q|%q", m.EventNonce, m.SkywayNonce, m.EthBlockHeight, m.BatchNonce, m.TokenContract, m.ChainReferenceId, m.CompassId)
+	}
+	return fmt.Sprintf("other|%T|%v", c, c)
 }
 
 func pct(a, b int64) int64 {
@@ -776,7 +927,13 @@ func (e *env) rawOps(n *explore.Node) []explore.Op {
 			if f := do(ctx, g); f != nil {
 				return f
 			}
-			return e.post(*ctx, g, count)
+			f := e.post(*ctx, g, count)
+			if f == nil && g.refused != "" && count {
+				if _, ok := e.r.Extra["sample_refused_quorum_claim:"+g.refusedKind]; !ok {
+					e.r.Extra["sample_refused_quorum_claim:"+g.refusedKind] = fmt.Sprintf("%s: %s · %s => %s holds a quorum at cursor+1 but reports a remote height below the recorded one: cursor advanced, claim neither Observed nor applied", e.d.Name, strings.Join(n.Path, " · "), label, g.refused)
+				}
+			}
+			return f
 		}})
 	}
 	// Partial-order reduction. Power(v,p) writes only the staking last powers, which
@@ -828,6 +985,26 @@ func (e *env) rawOps(n *explore.Node) []explore.Op {
 		w.SkywayEnd(*ctx, nil)
 		return nil
 	})
+	if e.d.Variants {
+		if last := e.cursor(n.Ctx); last > 0 && !g0.AfterOverride {
+			add("Override(0)", func(ctx *sdk.Context, g *ghost) *explore.Fail {
+				err := w.GovExec(*ctx, &skywaytypes.MsgNonceOverrideProposal{Metadata: world.MetaFor(w.Gov, &world.Actor{Addr: sdk.MustAccAddressFromBech32(w.Gov)}), ChainReferenceId: ref, Nonce: 0})
+				if err != nil {
+					return explore.Failf("harness:override", "override rejected: %v", err)
+				}
+				g.Epoch++
+				g.Cursor = 0
+				g.EpochNonces = []uint64{}
+				g.EpochHeight = 0
+				g.AfterOverride = true
+				if count {
+					e.bump("overrides")
+				}
+				return nil
+			})
+		}
+		return ops
+	}
 	if e.d.Compass {
 		if g0.NAct < e.maxActivations() {
 			id := compassIDs[g0.NAct+1] // c2, then c3
@@ -843,6 +1020,7 @@ func (e *env) rawOps(n *explore.Node) []explore.Op {
 				g.Epoch++
 				g.Cursor = 0
 				g.EpochNonces = []uint64{}
+				g.EpochHeight = 0
 				if count {
 					e.bump("compass_activations")
 				}
@@ -895,6 +1073,7 @@ func (e *env) rawOps(n *explore.Node) []explore.Op {
 				g.Epoch++
 				g.Cursor = k
 				g.EpochNonces = []uint64{}
+				g.EpochHeight = 0
 				g.AfterOverride = true
 				if count {
 					e.bump("overrides")
